@@ -113,7 +113,7 @@ class Cache:
                     if uid in node.uuid_map
                 }
                 res.partition_by = [node.uuid_map[uid] for uid in self.partition_by if uid in node.uuid_map]
-                res.derived_from = set()
+                res.derived_from = set(node.ref_source_ancestors)
 
         elif isinstance(node, verbs.Select):
             # the exported frame has the columns in the order they were selected
@@ -407,10 +407,10 @@ def transfer_col_references(table, ref_source):
     new._ast = Alias(
         new._ast,
         uuid_map={uid: ref_source._cache.name_to_uuid[name] for uid, name in table._cache.uuid_to_name.items()},
+        # The result carries the column identities of `ref_source`, so for the purpose of join
+        # validation it is derived from it (joining the two needs an `alias()` on one side).
+        ref_source_ancestors=frozenset(ref_source._cache.derived_from),
     )
     new._cache = table._cache.update(new._ast)
-    # The result carries the column identities of `ref_source`, so for the purpose of join
-    # validation it is derived from it (joining the two needs an `alias()` on one side).
-    new._cache.derived_from = new._cache.derived_from | ref_source._cache.derived_from
 
     return new
